@@ -16,6 +16,7 @@ import (
 	"unicode/utf8"
 
 	"github.com/relex/gotils/logger"
+	"github.com/relex/slog-agent/input/syslogprotocol"
 
 	"slogverif/hutil"
 	"slogverif/seq"
@@ -104,15 +105,46 @@ func classify(line string, headerBudget int) (verdict, string) {
 type sentinels struct {
 	name string
 	s    [3]string
+	tok  []string               // the header tokens shared by the three: PRI+version, timestamp, host, app, pid, msgid, SD
 	base map[string][][3]string // limits name -> per output
 }
 
+var plainMessages = [3]string{"sentinel one: the quick brown fox", "sentinel two: jumps over the lazy dog", "sentinel three: after the connection closed"}
+
+// richMessages carry what the pipeline works on: a class head (extracted at the input, put back by the Fluentd
+// serializer), escape sequences (\n \t \\ are unescaped while serializing), a 3-byte rune, an e-mail address
+// (redacted in place for app=appServ); at most 64 bytes each, so that they are whole under the scaled limits too.
+var richMessages = [3]string{
+	`[ClsOne] - sentinel one \t tab \n nl \\ bs € x.y@ex.com`,
+	`[ClsTwo] - sentinel two \n\tat x.Y(z.go:1) \\ € bob@ex.com`,
+	`sentinel three \t€\n after close, mail joe@example.org`,
+}
+
+// longMessages are richMessages with a stack trace of escape sequences behind them: records beyond
+// InputLogMinRecordBytesToPool (1024), which live in recycled pooled buffers; shipped limits only.
+var longMessages = func() (m [3]string) {
+	for i, r := range richMessages {
+		m[i] = r + strings.Repeat(`\n\tat com.example.Cls.method(File.java:123)`, 24+i) + ` \n end € al.ice@example.com`
+	}
+	return m
+}()
+
 func newSentinels(name, header string) *sentinels {
-	return &sentinels{name: name, base: map[string][][3]string{}, s: [3]string{
-		header + "sentinel one: the quick brown fox",
-		header + "sentinel two: jumps over the lazy dog",
-		header + "sentinel three: after the connection closed",
-	}}
+	return newSentinelsWith(name, header, plainMessages)
+}
+
+func newSentinelsWith(name, header string, msgs [3]string) *sentinels {
+	st := &sentinels{name: name, base: map[string][][3]string{}, tok: strings.Fields(header)}
+	if len(st.tok) != 7 {
+		panic("sentinel header must have seven tokens: " + header)
+	}
+	for i, m := range msgs {
+		st.s[i] = header + m
+		if v, _ := classify(st.s[i], 256); v != mustAccept || !strings.Contains(m, markers[i]) {
+			panic("sentinel is not a well-formed record carrying its marker: " + st.s[i])
+		}
+	}
+	return st
 }
 
 // bugLog receives the agent's log output; the agent marks "cannot happen" situations (e.g. a 60 s channel timeout) with BUG.
@@ -120,6 +152,7 @@ var bugLog = &hutil.LogCapture{}
 
 type pending struct {
 	id, bad, shown string
+	shape          int
 	c              counts
 }
 
@@ -153,7 +186,7 @@ func (h *harness) baseline(lim limits, st *sentinels) [][3]string {
 		return b
 	}
 	s := h.w.newSession(lim)
-	c := s.exchange([]string{st.s[0], st.s[1]}, st.s[2])
+	c := s.exchange([]string{st.s[0], st.s[1]}, st.s[2], 0)
 	s.tick(&c)
 	b := make([][3]string, len(h.w.outputNames))
 	for o := range h.w.outputNames {
@@ -173,6 +206,26 @@ func (h *harness) baseline(lim limits, st *sentinels) [][3]string {
 	}
 	st.base[lim.name] = b
 	return b
+}
+
+// recordStart applies the real record-start test of the framer (syslogprotocol.TestRecordStart, "checks whether given
+// []byte is possibly a valid syslog record") to the record - every record reaches the parser only behind this test, as a
+// line of its own or as the whole unit at a flush. It must not panic; a record of the documented grammar must be
+// recognised (else the framer glues it to the record in front of it and it is lost); something that does not begin with
+// '<' must not be.
+func recordStart(bad string) (string, string) {
+	var is bool
+	if site, detail := catch(func() { is = syslogprotocol.TestRecordStart([]byte(bad)) }); site != "" {
+		return "panic:" + site, detail
+	}
+	v, _ := classify(bad, 256)
+	if v == mustAccept && !is {
+		return "recordstart:wellformed-record-not-recognised", "the record matches the documented grammar but TestRecordStart says it is not the start of a record (the framer would attach it to the record in front of it)"
+	}
+	if (len(bad) == 0 || bad[0] != '<') && is {
+		return "recordstart:garbage-recognised", "the line does not begin with '<' but TestRecordStart says it is the start of a record"
+	}
+	return "", ""
 }
 
 // immediate applies the part of the oracle that is known as soon as the input side has handled the lines.
@@ -273,12 +326,15 @@ func (h *harness) delivered(s *session, base [][3]string, n int, c counts, count
 
 // single runs one case on its own on a fresh agent core, with the flush tick right after it: the reference verdict for a
 // case (this is also what a replay does).
-func (h *harness) single(lim limits, st *sentinels, bad string) (string, string) {
+func (h *harness) single(lim limits, st *sentinels, bad string, shape int) (string, string) {
 	base := h.baseline(lim, st)
+	if k, m := recordStart(bad); k != "" {
+		return k, m
+	}
 	s := h.w.newSession(lim)
 	var c counts
 	site, detail := catch(func() {
-		c = s.exchange([]string{st.s[0], bad, st.s[1]}, st.s[2])
+		c = s.exchange([]string{st.s[0], bad, st.s[1]}, st.s[2], shape)
 		s.tick(&c)
 	})
 	line := bugLog.FirstBugLine()
@@ -298,8 +354,11 @@ func (h *harness) single(lim limits, st *sentinels, bad string) (string, string)
 // step plays one case on the running agent core. What can be judged at once is judged (panic, input accounting, accept /
 // reject); the delivered output is judged at the next flush tick (flushBatch). Anything found on a reused core is re-run
 // with single(), whose verdict is the one reported; if it does not reproduce alone it is reported under "after-earlier-input:".
-func (h *harness) step(id string, lim limits, st *sentinels, bad, shown string) (string, string) {
+func (h *harness) step(id string, lim limits, st *sentinels, bad, shown string, shape int) (string, string) {
 	h.baseline(lim, st)
+	if k, m := recordStart(bad); k != "" {
+		return k, m // a pure function of the record: nothing was played, the running core stays as it is
+	}
 	if h.sess == nil {
 		h.sess = h.w.newSession(lim)
 		h.blim, h.bst = lim, st
@@ -307,7 +366,7 @@ func (h *harness) step(id string, lim limits, st *sentinels, bad, shown string) 
 	}
 	s := h.sess
 	var c counts
-	site, detail := catch(func() { c = s.exchange([]string{st.s[0], bad, st.s[1]}, st.s[2]) })
+	site, detail := catch(func() { c = s.exchange([]string{st.s[0], bad, st.s[1]}, st.s[2], shape) })
 	key, msg := "", ""
 	if site != "" {
 		h.nPanic++
@@ -325,7 +384,7 @@ func (h *harness) step(id string, lim limits, st *sentinels, bad, shown string) 
 		if c.inDropped == 1 {
 			h.nRejected++
 		}
-		h.batch = append(h.batch, pending{id, bad, shown, c})
+		h.batch = append(h.batch, pending{id, bad, shown, shape, c})
 		return "", ""
 	}
 	// this core is done: it is dead (panic) or holds output of a case that is not in the batch. The earlier cases of the
@@ -335,7 +394,7 @@ func (h *harness) step(id string, lim limits, st *sentinels, bad, shown string) 
 	h.sess = nil
 	// confirm on a fresh core (a panic class that was confirmed three times already in this process is taken as it is)
 	if s.cases > 1 && !(site != "" && h.confirmed[key] >= 3) {
-		if k2, m2 := h.single(lim, st, bad); k2 != "" {
+		if k2, m2 := h.single(lim, st, bad, shape); k2 != "" {
 			if k2 == key {
 				h.confirmed[key]++
 			}
@@ -360,20 +419,20 @@ func (h *harness) requeue(lim limits, st *sentinels, pend []pending) {
 	again := make([]pending, 0, batchSize)
 	for _, p := range pend {
 		var c counts
-		site, _ := catch(func() { c = s.exchange([]string{st.s[0], p.bad, st.s[1]}, st.s[2]) })
+		site, _ := catch(func() { c = s.exchange([]string{st.s[0], p.bad, st.s[1]}, st.s[2], p.shape) })
 		k := site
 		if k == "" {
 			k, _ = immediate(c, p.bad)
 		}
 		if k != "" {
 			for _, q := range pend {
-				if k, m := h.single(lim, st, q.bad); k != "" {
+				if k, m := h.single(lim, st, q.bad, q.shape); k != "" {
 					h.report(k, q.id, lim, q.shown, m)
 				}
 			}
 			return
 		}
-		again = append(again, pending{p.id, p.bad, p.shown, c})
+		again = append(again, pending{p.id, p.bad, p.shown, p.shape, c})
 	}
 	h.sess, h.blim, h.bst, h.batch = s, lim, st, again
 	h.flushBatch() // judged at once, so that no case is played more than twice
@@ -417,7 +476,7 @@ func (h *harness) flushBatch() {
 	h.nFallback++
 	found := false
 	for _, p := range batch {
-		if k, m := h.single(lim, st, p.bad); k != "" {
+		if k, m := h.single(lim, st, p.bad, p.shape); k != "" {
 			found = true
 			h.report(k, p.id, lim, p.shown, m)
 		}
@@ -440,6 +499,11 @@ func (h *harness) report(key, id string, lim limits, shown, msg string) {
 // run registers one case. The record is built inside the case (build), so that a replay - which walks the whole
 // enumeration to find one id - does not construct millions of records.
 func (h *harness) run(id string, lim limits, st *sentinels, nontrivial bool, build func() string) {
+	h.runShape(id, lim, st, 0, nontrivial, build)
+}
+
+// runShape is run with the shape of the exchange (see session.exchange) given.
+func (h *harness) runShape(id string, lim limits, st *sentinels, shape int, nontrivial bool, build func() string) {
 	ctx := h.ctx
 	if !ctx.Mine() {
 		ctx.Skip()
@@ -455,7 +519,7 @@ func (h *harness) run(id string, lim limits, st *sentinels, nontrivial bool, bui
 		if len(bad) > 600 {
 			shown = fmt.Sprintf("%q...(%d bytes)...%q", bad[:300], len(bad), bad[len(bad)-200:])
 		}
-		key, msg := h.step(id, lim, st, bad, shown)
+		key, msg := h.step(id, lim, st, bad, shown, shape)
 		if key == "" {
 			return "", ""
 		}
@@ -478,7 +542,13 @@ func enumerate(ctx *seq.Ctx) {
 	enumMenus(h)
 	enumEdits(h, seeds)
 	enumShort(h)
+	enumShortLines(h)
+	enumLengths(h)
+	enumUnits(h)
+	enumRich(h)
 	h.flushBatch()
+	h.sess = nil
+	enumSoak(h)
 	ctx.Note("outcomes_in_one_worker_process", fmt.Sprintf("bad record rejected at input=%d, delivered=%d (of which through a pipeline other than the sentinels'=%d), dropped by pipeline transforms=%d, panics=%d, "+
 		"flush ticks after which the pipeline registry was unreadable (invalid UTF-8 label)=%d, agent cores built=%d, flush ticks judged=%d, batches re-run case by case=%d, cases played again on a new core after a later case broke theirs=%d",
 		h.nRejected, h.nDelivered, h.nOwnPipe, h.nProcDropped, h.nPanic, h.nGatherErr, h.nSessions, h.nBatches, h.nFallback, h.nRequeued))
@@ -497,11 +567,21 @@ func main() {
 		Level:    "exploration",
 		Rule: "record level, sample configuration /repo/testdata/config_sample.yml: each case sends sentinel-1, RECORD, sentinel-2 on one connection and sentinel-3 on a second one through the real " +
 			"LogParsingReceiver (syslog parser + extraction transforms) -> byKeySet orchestrator (pipeline creation per key set) -> LogProcessingWorker (pipeline transforms, both serializers, both chunk makers) -> capture, " +
-			"decoded independently (fluentlib msgpack / gzip+JSON). Enumerated: (A) the full product of the per-token menus PRI(9) x timestamp(9) x host(6) x app(6) x msgid(7) x SD(2) x message(17) = 694008 records under limits " +
+			"decoded independently (fluentlib msgpack / gzip+JSON); RECORD also goes through the real record-start test of the framer (syslogprotocol.TestRecordStart). Enumerated: (A) the full product of the per-token menus " +
+			"PRI(9) x timestamp(9) x host(6) x app(6) x msgid(7) x SD(2) x message(17) = 694008 records under limits " +
 			"scaled to message 64 / record 320 (thorough: also under the shipped limits; quick there: all combinations with at most two non-normal tokens); (B) all one-edit neighbours (substitution by each of 255 other bytes, " +
 			"insertion of each of 256 bytes at every position, every deletion) of five records of testdata/development (scaled limits: all five; shipped limits: two in quick, five in thorough); (C) all strings over " +
-			"{<,1,>,space,-,a} of length 0-7 (thorough 0-8) in front of a fixed valid tail. Oracle: no panic; every line counted exactly once at the input; a record outside the documented grammar rejected, one inside it accepted; " +
-			"pipeline passed+dropped = input passed; events delivered per output = pipeline passed; the three sentinels delivered unchanged (equal to their delivery without the bad record), once, in order, on both outputs. " +
+			"{<,1,>,space,-,a} of length 0-7 (thorough 0-8) in front of a fixed valid tail; (C2) all strings over {<,1,9,>,space,-,a} of length 0-6 (thorough 0-7) as they are (no tail); (C3) all such strings of length 0-4 " +
+			"continued by the tail and cut to 30..33 bytes in total; (D) one token at a length boundary - host / app / vhost / msgid / pid / SD / message (plain, with an escape sequence, unescaped length, with a class head, " +
+			"in 3-byte runes) of 15, 16, 31, 32, 255, 256, 65535, 65536, 65537 bytes; message of limit+255, +256, +257, 2 x, 3 x limit and of ListenerLineBufferSize; whole record of InputLogMaxRecordBytes -1/0/+1; under the shipped " +
+			"limits whole record of 2^n -1/0/+1 for n = 10..21 - x at most one non-normal option of another token, under both limit variants (shipped limits also between pooled sentinels of > 1 KiB); (E) the units the framer " +
+			"hands over: {nothing, record, record with escapes, short head, garbage} followed by 0-2 attached lines of {empty, garbage, short head, over-limit, binary}, and lumps of ListenerLineBufferSize-1 / ListenerLineBufferSize bytes " +
+			"(record, record with lines, garbage, newlines), x 3 sentinel sets x 2 shapes x 2 limit variants; (F) the menus of (A), all combinations with at most 3 (scaled) / 2 (shipped limits) non-normal tokens (thorough 4 / 3), between " +
+			"feature-rich sentinels (class head, task id, vhost, escape sequences, 3-byte rune, e-mail address; app=appServ variant with in-place e-mail redaction; > 1 KiB variant in pooled buffers) x 2 shapes (flush tick behind " +
+			"sentinel-2 / between RECORD and sentinel-2 with sentinel-3 arriving meanwhile); (G) 18 input classes x 22000 (thorough 202000) distinct records with constant key fields through ONE agent core, live heap read after 2000, " +
+			"12000 and 22000 records. Oracle: no panic; every line counted exactly once at the input; a record outside the documented grammar rejected, one inside it accepted and recognised by the record-start test, a line not " +
+			"beginning with '<' not recognised; pipeline passed+dropped = input passed; events delivered per output = pipeline passed; every chunk decodable; the three sentinels delivered unchanged (equal, in full, to their delivery " +
+			"without the bad record), once, in order, on both outputs; (G) live heap growth over the last 10000 records <= 256 KiB + 1/8 of the bytes fed. " +
 			"non-trivial = the record passes the 32-byte / '<' gate of the parser",
 		Assumptions: []string{
 			"the hybrid buffer and the forwarding clients are not part of this harness (a chunk is opaque to them; C02/C03/C04 cover them): the chunk handed to the buffer is captured and decoded",
@@ -511,12 +591,16 @@ func main() {
 			"defs.IntermediateFlushInterval is set to 0 so that every periodic flush finds its interval elapsed (no wall clock in the oracle); defs.IntermediateBufferedChannelSize is raised from 1 to 16 because the harness goroutine " +
 				"serves the pipelines' input channels between the steps of a case instead of concurrently (a send must never wait for a receiver that runs later)",
 			"grammar used by the oracle (DESIGN A.2): must-reject = no leading '<', first token not ending in '>1', fewer than six header tokens after the PRI; must-accept = PRI 1-3 digits <= 191, six non-empty header tokens of " +
-				"printable ASCII, header within 256 bytes (InputLogMaxRecordBytes - InputLogMaxMessageBytes), total length >= 32; everything else (other PRI spellings, empty or non-ASCII tokens, no message part, shorter than 32, longer header) may be rejected or accepted",
+				"printable ASCII, header within 256 bytes (InputLogMaxRecordBytes - InputLogMaxMessageBytes), total length >= 32 - whatever the length of the message (it is cut to the limit, not rejected); everything else " +
+				"(other PRI spellings, empty or non-ASCII tokens, no message part, shorter than 32, longer header) may be rejected or accepted; the record-start test may answer either way for everything between must-accept and no leading '<'",
 			"a label value that is not valid UTF-8 makes the Prometheus registry of the pipelines unreadable (Gather fails) without any panic; pipeline-level counters are then not compared (delivery still is); counted in the evidence notes - a C19 matter",
-			"the content of the delivered bad record is not judged here (C09/C10), only that it is counted and leaves its neighbours alone",
+			"the content of the delivered bad record is not judged here (C09/C10), only that it is counted, that its chunk decodes and that it leaves its neighbours alone",
+			"(G) 'the agent process keeps running' is read as: input cannot make the process grow without bound. Pipelines, queues and metric series per key set / metric key set are documented to live until restart " +
+				"(config_sample.yml: 'idle pipelines and queues are never destroyed'), so the soak records keep app, level, task, host, vhost and source constant and vary everything else; the bound (256 KiB + 1/8 of the bytes fed " +
+				"per 10000 records, measured as HeapAlloc after two forced collections, delivered chunks dropped by the harness) is far above what the unchanged tree shows (evidence notes soak_*) and far below one retained copy per record",
 		},
 		Enumerate:        enumerate,
-		QuickDeadline:    6 * time.Minute,
+		QuickDeadline:    20 * time.Minute,
 		ThoroughDeadline: 45 * time.Minute,
 	})
 }
